@@ -227,6 +227,24 @@ impl Sim {
         self.w.respond(rec, k, &spec);
     }
 
+    /// answer held request `k` with a body padded to `pad` bytes
+    pub fn respond_sized(&mut self, rec: &mut Rec, k: usize, pad: usize) {
+        if k >= self.w.held.len() {
+            return;
+        }
+        let t = self.w.held[k].tag.clone();
+        let client = self.w.held[k].client;
+        let mut body = format!("{}:", t).into_bytes();
+        body.extend(std::iter::repeat(b'.').take(pad));
+        let spec = RespSpec { v11: true, code: 200, ops: vec![BOp::Body(body)] };
+        if let Some(i) = client {
+            if i < self.plans.len() {
+                self.plans[i].answered.push(t);
+            }
+        }
+        self.w.respond(rec, k, &spec);
+    }
+
     pub fn step(&mut self, rec: &mut Rec, rng: &mut Rng) {
         let n = self.w.clients.len();
         let live: Vec<usize> = (0..n).filter(|&i| self.w.clients[i].sock.is_some()).collect();
@@ -948,6 +966,7 @@ pub fn c08(rec: &mut Rec, rng: &mut Rng, thorough: bool) {
         c08_input_fills_buffer_exactly(rec, rng, total);
     }
     c08_server_dropped_after_flush(rec, rng);
+    c08_flush_large_answers_that_fit(rec, rng);
     let n = if thorough { 3000 } else { 140 };
     for k in 0..n {
         let mut cfg = Cfg::base("C08");
@@ -1031,6 +1050,60 @@ pub fn c08(rec: &mut Rec, rng: &mut Rng, thorough: bool) {
             rec.oracle_fail("C08", "the epoll descriptor still signals readiness at quiescence after flush", &sim.w.log);
         }
         sim.w.teardown();
+    }
+}
+
+/// "flushing outgoing writes delivers queued responses that fit the socket buffer without polling" — with responses
+/// that are large but FIT: a first answer of a quarter to a half of the socket buffer and further answers behind it,
+/// to one client that reads only after the flush (and, second form, has not yet read an earlier flushed answer).
+pub fn c08_flush_large_answers_that_fit(rec: &mut Rec, rng: &mut Rng) {
+    for (j, pads) in [vec![60_000usize, 10], vec![30_000, 30_000, 10], vec![100_000, 5, 5], vec![10, 70_000, 10], vec![54_000, 54_000]].into_iter().enumerate() {
+        for earlier_unread in [false, true] {
+            rec.case("flush-large-answers-that-fit");
+            rec.nontrivial();
+            let mut sim = Sim::new(rec, Cfg::base("C08"));
+            let c = sim.connect(rec);
+            sim.poll(rec);
+            if earlier_unread {
+                // an earlier round trip whose (large) answer the client has not read yet
+                sim.plan_request(rng, c);
+                while !sim.plans[c].outq.is_empty() {
+                    sim.send_next(rec, rng, c);
+                }
+                for _ in 0..4 {
+                    sim.poll(rec);
+                }
+                if !sim.w.held.is_empty() {
+                    sim.respond_sized(rec, 0, 56_000);
+                }
+                sim.w.flush(rec);
+            }
+            for _ in 0..pads.len() {
+                sim.plan_request(rng, c);
+            }
+            while !sim.plans[c].outq.is_empty() {
+                sim.send_next(rec, rng, c);
+            }
+            for _ in 0..6 {
+                sim.poll(rec);
+            }
+            let mut k = 0;
+            while !sim.w.held.is_empty() && k < pads.len() {
+                sim.respond_sized(rec, 0, if earlier_unread { pads[k] / 2 } else { pads[k] });
+                k += 1;
+            }
+            sim.w.flush(rec);
+            sim.w.client_read(rec, c);
+            let (resps, leftover) = split_responses(&sim.w.clients[c].received);
+            let got: Vec<String> = resps.iter().filter(|(code, _)| *code == 200).map(|(_, b)| String::from_utf8_lossy(&b[..b.len().min(64)]).split(':').next().unwrap_or("").to_string()).collect();
+            if got != sim.plans[c].answered || leftover != 0 {
+                rec.oracle_fail("C08", &format!("pattern {}: after flush (answers of {:?} bytes, together well inside the socket buffer{}) the client has {:?} (+{} bytes of a further one), supplied {:?}",
+                    j, pads, if earlier_unread { ", an earlier flushed answer still unread" } else { "" }, got, leftover, sim.plans[c].answered), &sim.w.log);
+            }
+            sim.settle(rec, rng);
+            common_checks(rec, &mut sim, "C08");
+            sim.w.teardown();
+        }
     }
 }
 
